@@ -119,7 +119,10 @@ def main(argv=None) -> int:  # noqa: C901
     monitor_errors: List[str] = []
     truncated = 0
     oracle = Counter()
+    line_hits: Dict[str, set] = {}
     for r in good:
+        for f, ls in (r.get("line_hits") or {}).items():
+            line_hits.setdefault(f, set()).update(ls)
         counters.update(r["counters"])
         digests.update(r["digests"])
         violations.extend(r["violations"])
@@ -205,6 +208,12 @@ def main(argv=None) -> int:  # noqa: C901
             "verdict": {0: "held-on-observed", 1: "violated", 2: "inconclusive"}[code],
             "inconclusive_reasons": reasons,
         }
+        try:
+            from pvm import covmon
+
+            cov["source_line_reach"] = covmon.summarise(env.SRC, {f: sorted(v) for f, v in line_hits.items()})
+        except Exception as e:  # noqa: BLE001
+            cov["source_line_reach"] = {"error": str(e)[:200]}
         if meta.get("exhaustive_note"):
             cov["exhaustive_note"] = meta["exhaustive_note"]
         ev = {
